@@ -439,6 +439,27 @@ def bcd_pack(v):
     return (z3.UDiv(v, bv(10)) << 4) | z3.URem(v, bv(10))
 
 
+def bcd_addsub(a, b, c, sub):
+    """Packed-BCD byte add/subtract with carry/borrow c (0/1): decimal value arithmetic
+    (a + b + c) mod 100 resp. (a - b - c) mod 100, carry = decimal overflow / borrow.
+    Same function as bcd_pack((bcd_val(a) +- ...) % 100), computed at 8 bits (all values < 200)
+    so that the division circuits the solver sees are 8 and not 64 bits wide."""
+    def val8(x):
+        x8 = z3.Extract(7, 0, x)
+        return z3.ZeroExt(4, z3.Extract(7, 4, x8)) * 10 + z3.ZeroExt(4, z3.Extract(3, 0, x8))
+    c8 = z3.ZeroExt(7, z3.Extract(0, 0, c))
+    hundred, ten = z3.BitVecVal(100, 8), z3.BitVecVal(10, 8)
+    if sub:
+        v = val8(a) + hundred - val8(b) - c8
+        carry = z3.ULT(v, hundred)
+    else:
+        v = val8(a) + val8(b) + c8
+        carry = z3.UGE(v, hundred)
+    m = z3.If(z3.UGE(v, hundred), v - hundred, v)
+    r8 = (z3.UDiv(m, ten) << 4) | z3.URem(m, ten)
+    return z3.ZeroExt(W - 8, r8), z3.If(carry, bv(1), bv(0))
+
+
 # ----------------------------------------------------------------------------- semantics
 class Result:
     pass
@@ -889,17 +910,12 @@ def _block(mn, ops, st, n):
             else:
                 b = st.get(s.name) & 0xFF
                 if bcd and k > 0:
-                    st.free.append("bcd-reg-src-after-first-byte")
+                    # DADL/DSBL (n),A: unlike ADCL/SBCL (n),A ("A is src for each byte") the README does
+                    # not say what the bytes after the first add; their results and the final C/Z are open
+                    st.free += [("membits", dc[1], 0xFF), "C", "Z"]
             if bcd:
                 st.need(z3.And(bcd_valid(a), bcd_valid(b)))
-                if sub:
-                    v = bcd_val(a) + 100 - bcd_val(b) - c
-                    r = bcd_pack(z3.URem(v, bv(100)))
-                    c = z3.If(z3.ULT(v, bv(100)), bv(1), bv(0))
-                else:
-                    v = bcd_val(a) + bcd_val(b) + c
-                    r = bcd_pack(z3.URem(v, bv(100)))
-                    c = z3.If(z3.UGE(v, bv(100)), bv(1), bv(0))
+                r, c = bcd_addsub(a, b, c, sub)
             else:
                 if sub:
                     t = b + c
